@@ -59,6 +59,13 @@ def corpus():
         ("HeavyHitters", dict(width=2, depth=1, max_key_len=2, phi=5e-324), [["add", list(b"a\x00"), 2], ["add", list(b"a"), 1]]),
         ("HeavyHitters", dict(width=2, depth=1, max_key_len=2, phi=float("nan")), [["add", list(b"a"), 1]]),
         ("HeavyHitters", dict(width=5, depth=4), [["update", a]]),
+    ] + [
+        # the largest counter of the table sits exactly on / next to a storage-width boundary (a save() that picks the
+        # narrowest dtype, or a loader that narrows, loses exactly these; added after seeded change C01_save_narrowest_dtype)
+        (cls, kw, [["add", list(b"a"), v]])
+        for cls, kw in (("CountMinLinear", dict(width=2, depth=2)), ("HeavyHitters", dict(width=2, depth=2, max_key_len=3)),
+                        ("CountMinLog16", dict(width=2, depth=2, num_reserved=1023)))
+        for v in ((255, 256, 257, 65535, 65536, 65537) if cls != "CountMinLog16" else (255, 256, 257, 1023))
     ]
 
 
@@ -449,7 +456,7 @@ def run(ctx):
     # a failure is reported by the generic path above as a violation.
     shutil.rmtree(fdir, ignore_errors=True)
     ctx.cov["base_refused_configurations"] = len(bad_base)
-    ctx.cov["rule"] = ("a case = one sketch configuration + random history (corpus of 23 edge cases first: width=depth=1, "
+    ctx.cov["rule"] = ("a case = one sketch configuration + random history (corpus of 39 edge cases first: width=depth=1, "
                        "counter ceilings, n_added = 2^64-1, num_reserved = limit-1, max_count = 2^64-1, seeds >= 2^63, "
                        "HeavyHitters width 1 default phi (F5), phi in {1.0, NaN, 5e-324}, max_key_len 255), saved to a real "
                        ".npz, loaded by all five class loaders and countmin.load (own loader also with shared_memory=True "
